@@ -57,7 +57,7 @@ type c10 struct {
 }
 
 func (c *c10) aloneRun(call Call) Outcome {
-	k := fmt.Sprintf("%s|%d|%d|%v", call.Tmpl, call.FaultProbe, call.FaultWrite, call.Data)
+	k := fmt.Sprintf("%s|%d|%d|%d|%v", call.Tmpl, call.FaultProbe, call.FaultProbe2, call.FaultWrite, call.Data)
 	if o, ok := c.alone[k]; ok {
 		return o
 	}
@@ -121,7 +121,10 @@ func RunC10(env *sim.Env) {
 			env.Stat("fault:writer_error", 1)
 		}
 		if o.Probes.Fired {
-			env.Stat("fault:function_panics_with_error", 1)
+			env.Stat("fault:function_panics_with_error", int64(o.Probes.NFired))
+		}
+		if o.Probes.NFired > 1 {
+			env.Stat("probe:two_failures_in_one_execution", 1)
 		}
 		if o.Key() == want.Key() {
 			return
@@ -163,10 +166,24 @@ func RunC10(env *sim.Env) {
 			continue
 		}
 		// fault points: every dynamic probe call and every write (capped, evenly thinned)
-		type fp struct{ probe, write int }
+		type fp struct{ probe, write, probe2 int }
 		var fps []fp
+		nDouble := 0
 		for k := 1; k <= nProbe; k++ {
 			fps = append(fps, fp{probe: k})
+			// second-level faults: calls that only happen (or still happen) after the first failure,
+			// e.g. inside the catch body it led to - the catch body fails too
+			if nDouble < 8 {
+				o1 := c.aloneRun(Call{Tmpl: m, Data: d, FaultProbe: k})
+				if n1 := o1.Probes.Calls; n1 > k {
+					fps = append(fps, fp{probe: k, probe2: k + 1})
+					nDouble++
+					if n1 > k+1 {
+						fps = append(fps, fp{probe: k, probe2: n1})
+						nDouble++
+					}
+				}
+			}
 		}
 		for k := 1; k <= nWrite; k++ {
 			fps = append(fps, fp{write: k})
@@ -189,7 +206,7 @@ func RunC10(env *sim.Env) {
 		for _, f := range fps {
 			for _, follow := range targets {
 				before := pools.RtReusedAfterFail
-				exec(Call{Tmpl: m, Data: d, FaultProbe: f.probe, FaultWrite: f.write})
+				exec(Call{Tmpl: m, Data: d, FaultProbe: f.probe, FaultProbe2: f.probe2, FaultWrite: f.write})
 				fd := d
 				if follow != m && t.Choose(2) == 1 {
 					fd = data2
